@@ -164,6 +164,7 @@ let fmt_out name r =
 let pending_evs : ev list ref = ref []
 let auto_q = ref true
 (* the hierarchy of merged filters maintained alongside the storage model (Storage/Filtered.v `track`) *)
+let st_ignore = ref false
 let st_group = ref 2
 let st_bloom_cfg : string option ref = ref None      (* hex of the bloom config, None = bloom disabled *)
 let st_bloom_bits : int option ref = ref None        (* bit count chosen by the implementation's float formula *)
@@ -206,6 +207,7 @@ let cmd_cfg args =
         (if v <> "none" && String.length v >= 32 then st_bloom_hashers := int_of_n (le_val (bytes_of_hex (String.sub v 16 16))))
       | ["bloombits"; v] -> st_bloom_bits := Some (int_of_string v)
       | ["validate"; v] -> st_validate := (v = "1")
+      | ["ignore"; v] -> st_ignore := (v = "1")
       | ["nomodel"; "1"] -> tainted_ref := true
       | _ -> ()) args;
   emit "cfg"
@@ -264,22 +266,55 @@ let storage_handlers = [
   ("flip", (fun _ -> emit "*"));
   ("patch", (fun _ -> emit "*"));
   ("trunc", (function
-       | ["blob"; id; n] ->
-         (* crash model: the blob file is cut to n bytes; what does Blob::from_file make of it? (Blob/Scan.v) *)
+       | ["blob"; id; n] when not !tainted_ref ->
+         (* crash model: the blob file is cut to n bytes. What Blob::from_file makes of it is computed by the byte-level
+            scan model (Blob/Scan.v) on the model's own bytes of that file; the OUTCOME enters the storage model as
+            OCut (Storage/Model.v): cut at a record boundary / unreadable -> quarantined at the next start. *)
          let id = int_of_string id in
          let all = closed_blobs !st @ (match !st.s_active with Some b -> [b] | None -> []) in
          (match List.filter (fun b -> int_of_n b.b_id = id) all with
           | b :: _ ->
             let bytes = blob_file_bytes (n_of_int !st_k) b.b_recs in
-            let cut = List.filteri (fun i _ -> i < int_of_string n) bytes in
+            let len = List.length bytes in
+            let n = int_of_string n in
+            let n = if n < 0 then max 0 (len + n) else n in
+            if n >= len then emit "*"                         (* truncation never extends a file: nothing happens *)
+            else begin
+              let cut = List.filteri (fun i _ -> i < n) bytes in
+              Hashtbl.replace images id cut;
+              let r = blob_open_scan cut (n_of_int !st_k) !st_validate in
+              spec_pending := (match r with
+                  | ROk hs -> Printf.sprintf "sc served %d" (List.length hs)
+                  | RFail _ -> (match dispose r with DInitFails -> "sc initfails 0" | _ -> "sc quarantined 0"));
+              (if !st.s_open || !st_ignore then tainted_ref := true
+               else match r with
+                 | ROk hs ->
+                   let j = nat_of_int (List.length hs) in
+                   if cut_applies (n_of_int !st_k) j b then st := fst (step (n_of_int !st_k) !st_cfg !st (OCut (n_of_int id, Some j)))
+                   else tainted_ref := true       (* bytes an index file describes were lost: outside the crash model *)
+                 | RFail _ ->
+                   (match dispose r with
+                    | DInitFails -> tainted_ref := true
+                    | _ -> st := fst (step (n_of_int !st_k) !st_cfg !st (OCut (n_of_int id, None)))));
+              emit "*"
+            end
+          | [] -> emit "*")
+       | ["blob"; id; n] ->
+         (* the storage model was already lost (earlier damage): only the scan prediction for this file *)
+         let id = int_of_string id in
+         (match Hashtbl.find_opt images id with
+          | Some bytes ->
+            let n = int_of_string n in
+            let n = if n < 0 then max 0 (List.length bytes + n) else n in
+            let cut = List.filteri (fun i _ -> i < n) bytes in
             Hashtbl.replace images id cut;
             let r = blob_open_scan cut (n_of_int !st_k) !st_validate in
             spec_pending := (match r with
                 | ROk hs -> Printf.sprintf "sc served %d" (List.length hs)
-                | RFail _ -> (match dispose r with DInitFails -> "sc initfails 0" | _ -> "sc quarantined 0"));
-            emit "*"
-          | [] -> emit "*")
-       | _ -> emit "*"));
+                | RFail _ -> (match dispose r with DInitFails -> "sc initfails 0" | _ -> "sc quarantined 0"))
+          | None -> ());
+         emit "*"
+       | _ -> tainted_ref := true; emit "*"));
   ("ls", (fun _ -> emit "*"));
   ("disk", (fun _ -> emit "*"));
   ("fsync", (fun _ ->
@@ -550,7 +585,7 @@ let cmd_tool = function
          | Some o -> Hashtbl.replace outs (int_of_string id) o; emit "tool migrate ok"
          | None -> emit "tool migrate Err")
      | None -> emit "tool migrate Err")
-  | ["install"; _] -> emit "tool install ok"
+  | ["install"; _] -> tainted_ref := true; emit "tool install ok"    (* a blob file is replaced by a tool's output: outside the storage model *)
   | _ -> emit "*"
 let () = handlers := ("tool", cmd_tool) :: ("flip", cmd_flip) :: (List.filter (fun (n, _) -> n <> "flip") !handlers)
 
@@ -575,7 +610,7 @@ let run_script path outpath =
          | c :: args when !hard_taint && c <> "cfg" -> emit "*"
          | c :: args when !tainted && c <> "cfg" && c <> "tool" && c <> "flip" && c <> "trunc" -> emit "*"
          | c :: args ->
-           if c = "flip" || c = "patch" || c = "trunc" then tainted := true;
+           if c = "flip" || c = "patch" then tainted := true;
            (match List.assoc_opt c !handlers with
             | Some h -> (try h args with
                 | Not_found -> emit ("MODEL-ERROR not_found: " ^ line)
@@ -595,7 +630,7 @@ let main () =
   let n = Array.length Sys.argv in
   let i = ref 1 in
   while !i + 1 < n do
-    tainted := false; hard_taint := false; auto_q := true; st_group := 2; st_bloom_cfg := None; st_bloom_bits := None; hier_tr := ch_new (nat_of_int 2); hier_valid := true; Hashtbl.reset images; Hashtbl.reset outs; pending_evs := []; Hashtbl.reset probes; Hashtbl.reset blooms; Hashtbl.reset raws; st := init_storage; st_k := 4; st_lazy := false; st_validate := false;
+    tainted := false; hard_taint := false; auto_q := true; st_ignore := false; st_group := 2; st_bloom_cfg := None; st_bloom_bits := None; hier_tr := ch_new (nat_of_int 2); hier_valid := true; Hashtbl.reset images; Hashtbl.reset outs; pending_evs := []; Hashtbl.reset probes; Hashtbl.reset blooms; Hashtbl.reset raws; st := init_storage; st_k := 4; st_lazy := false; st_validate := false;
     st_cfg := { c_dup = true; c_maxrec = n_of_int 1000000; c_maxsize = n_of_int 1000000000 };
     run_script Sys.argv.(!i) Sys.argv.(!i + 1);
     i := !i + 2
